@@ -262,8 +262,8 @@ def random_triples_text(rng):
     syms = ['a', 'b', 'x1', 'bark-01', '-', '1', '0.5', 'é', 'a~1', '^x', 'a:b']
     strs = ['"s"', '"a b"', '"(x)"', '"a, b"', '"^"', '"a\\"b"', '""']
     parts = []
-    for _ in range(rng.randint(1, 5)):
-        role = rng.choice(['instance', 'ARG0', ':ARG1', 'op1', 'mod', ':', 'r,s'])
+    for _ in range(rng.randint(1, 6)):
+        role = rng.choice(['instance', 'ARG0', ':ARG1', 'op1', 'mod', ':', 'r,s', '^r', '^e', 'r', 'r'])
         src = rng.choice(syms)
         tgt = rng.choice(syms + strs + [''])
         comma = rng.choice([',', ', ', ' ,', ' , ', ' ', ',', ', '])
